@@ -68,6 +68,10 @@ HOSTILE_DOC_WORDS = ['"""', "'''", '\\u12', '\\x4', '\\N{dash}', 'back\\slash', 
                      '${x}', '`tick`', '<b>', '@param', '"""quoted"""']
 
 
+KEYWORD_DOC_WORDS = ['namespace', 'namespace of', 'struct', 'union', 'route', 'alias', 'import', 'example',
+                     'attrs', 'patch struct', 'annotation', 'union_closed']
+
+
 def stable_seed(*parts):
     h = hashlib.sha256(repr(parts).encode()).digest()
     return int.from_bytes(h[:8], 'big')
@@ -341,6 +345,7 @@ DEFAULT_PROFILE = dict(
     p_ts_bytes_default=0.0,     # K16: emitted as str, refused by the runtime
     p_multi_pos_custom=0.0,     # K8
     p_three_part_field_ref=0.0,  # K22 (swift/objc _docf)
+    p_keyword_doc=0.0,           # doc lines beginning with a language keyword
     p_marker_chain=0.0,          # struct <- field-less struct <- struct chains
     p_tag_named_like_member_field=0.0,  # union tag named after a field of its struct member type
     p_prefer_redacted_alias=0.0,  # bias user-type positions towards aliases carrying a redactor
@@ -420,6 +425,11 @@ class Gen:
             self.m.feature('hostile_doc_text')
         if refs and r.random() < self.p['p_doc_ref']:
             ws.insert(r.randint(0, len(ws)), r.choice(refs))
+        if self.p['p_keyword_doc'] and r.random() < self.p['p_keyword_doc']:
+            # a doc line that *begins* with a language keyword (continuation lines of
+            # a multi-line doc then look like declarations to a line-oriented reader)
+            ws.insert(0, r.choice(KEYWORD_DOC_WORDS))
+            self.m.feature('keyword_leading_doc_line')
         ws.append('d%d' % self._n())
         return ' '.join(ws)
 
